@@ -164,6 +164,92 @@ def build(data):
     return cd
 
 
+# ---- one chart-data OBJECT extended in place between uses (mutation = JSON list)
+#   ["add_series", name, values_or_points] | ["add_category", node] | ["add_points", series index, values_or_points]
+#   ["set_categories", [labels]] | ["number_format", text]
+def apply_mut_data(data, m):
+    """the data snapshot after the mutation (pure)"""
+    import copy
+
+    d = copy.deepcopy(data)
+    if m[0] == "add_series":
+        d["series"].append([m[1], list(m[2])])
+    elif m[0] == "add_category":
+        d["cats"].append(m[1])
+    elif m[0] == "add_points":
+        d["series"][m[1]][1].extend(m[2])
+    elif m[0] == "set_categories":
+        d["cats"] = [[l, []] for l in m[1]]
+    elif m[0] == "number_format":
+        pass
+    else:
+        raise ValueError(m)
+    return d
+
+
+def apply_mut_obj(cd, kind, m):
+    """the same mutation on the live chart-data object (python-pptx public API)"""
+    if m[0] == "add_series":
+        if kind == "cat":
+            cd.add_series(m[1], list(m[2]))
+        else:
+            s = cd.add_series(m[1])
+            for x, y, z in m[2]:
+                s.add_data_point(x, y, z) if kind == "bub" else s.add_data_point(x, y)
+    elif m[0] == "add_category":
+        def add(parent, node, top):
+            c = cd.add_category(py_of(node[0])) if top else parent.add_sub_category(py_of(node[0]))
+            for ch in node[1]:
+                add(c, ch, False)
+        add(None, m[1], True)
+    elif m[0] == "add_points":
+        s = cd[m[1]]
+        for p_ in m[2]:
+            if kind == "cat":
+                s.add_data_point(p_)
+            elif kind == "bub":
+                s.add_data_point(p_[0], p_[1], p_[2])
+            else:
+                s.add_data_point(p_[0], p_[1])
+    elif m[0] == "set_categories":
+        cd.categories = [py_of(l) for l in m[1]]
+    elif m[0] == "number_format":
+        if kind == "cat":
+            cd.categories.number_format = m[1]
+        else:
+            cd._number_format = m[1]
+    else:
+        raise ValueError(m)
+
+
+def gen_mut(rng, data):
+    kind = data["kind"]
+    r = rng.random()
+    if kind == "cat":
+        depth = _depth(data["cats"])
+        if r < 0.3:
+            return ["add_series", safe_string(rng) + "+", [safe_value(rng) for _ in range(rng.randint(1, 5))]]
+        if r < 0.55 and depth >= 1:
+            first = data["cats"][0][0]
+            if depth == 1 and first is not None and first[0] in "dt":
+                return ["add_category", gen_dates(rng, 1, True)[0]]
+            if depth == 1 and first is not None and first[0] == "n":
+                return ["add_category", [["n", safe_number(rng)], []]]
+            return ["add_category", gen_tree(rng, depth, 2)[0]]
+        if r < 0.8 and data["series"]:
+            return ["add_points", rng.randrange(len(data["series"])), [safe_value(rng) for _ in range(rng.randint(1, 3))]]
+        if r < 0.9:
+            return ["set_categories", [["s", safe_string(rng)] for _ in range(rng.randint(1, 6))]]
+        return ["number_format", rng.choice(["0.0", "#,##0", "General", "yyyy-mm-dd"])]
+    def pts(n):
+        return [[safe_value(rng, 0.1), safe_value(rng, 0.1), safe_value(rng, 0.1) if kind == "bub" else None] for _ in range(n)]
+    if r < 0.45 or not data["series"]:
+        return ["add_series", safe_string(rng) + "+", pts(rng.randint(1, 4))]
+    if r < 0.9:
+        return ["add_points", rng.randrange(len(data["series"])), pts(rng.randint(1, 3))]
+    return ["number_format", rng.choice(["0.0", "#,##0", "General"])]
+
+
 def is_pie(data, salt=0):
     """the pie writer emits c:ser for the first series only (a new chart; replace_data rewrites all)"""
     from pptx.enum.chart import XL_CHART_TYPE as T
@@ -313,13 +399,18 @@ def impl_hist(case):
     from pptx.util import Inches
 
     states = []
+    data0 = case["data"]
+    muts = case.get("muts")           # reuse: ONE chart-data object, mutated in place between uses
+    if muts is not None and case.get("mode") == "blob":
+        return impl_reuse_blob(case), None
     prs = Presentation()
     slide = prs.slides.add_slide(prs.slide_layouts[6])
-    data0 = case["data"]
+    live = None
     try:
         with warnings.catch_warnings():
             warnings.simplefilter("ignore")
-            gf = slide.shapes.add_chart(chart_type_for(data0, case.get("salt", 0)), 0, 0, Inches(4), Inches(3), build(data0))
+            live = build(data0)
+            gf = slide.shapes.add_chart(chart_type_for(data0, case.get("salt", 0)), 0, 0, Inches(4), Inches(3), live)
     except Exception as e:  # noqa
         return ["err:" + exc_name(e)], None
     chart = gf.chart
@@ -332,11 +423,17 @@ def impl_hist(case):
                 "sheet": read_xlsx(part.chart_workbook.xlsx_part.blob)}
 
     states.append(observe())
-    for o in case["ops"]:
+    for oi, o in enumerate(case["ops"]):
         try:
             if o[0] == "d1904":
                 cs = chart._chartSpace
                 cs.get_or_add_date1904().val = bool(o[1])
+            elif muts is not None:
+                for m in muts[oi]:
+                    apply_mut_obj(live, data0["kind"], m)
+                with warnings.catch_warnings():
+                    warnings.simplefilter("ignore")
+                    chart.replace_data(live)
             else:
                 with warnings.catch_warnings():
                     warnings.simplefilter("ignore")
@@ -418,6 +515,40 @@ def impl_corpus(case):
 def _ser_key(d):
     pr = parse_ref(d["tx"]["ref"]) if "tx" in d else None
     return pr or (0, 0, 0, 0)
+
+
+def impl_reuse_blob(case):
+    """No chart: xml_bytes / xlsx_blob asked several times of ONE chart-data object that is
+    extended in between (what ChartPart.new and replace_data ask of it)."""
+    data0 = case["data"]
+    kind = data0["kind"]
+    ct = chart_type_for(data0, 0 if kind == "cat" else case.get("salt", 0))   # not a pie: every series in the XML
+    states = []
+    try:
+        live = build(data0)
+    except Exception as e:  # noqa
+        return ["err:" + exc_name(e)]
+
+    def observe():
+        with warnings.catch_warnings():
+            warnings.simplefilter("ignore")
+            x1 = live.xml_bytes(ct)
+            b1 = live._workbook_writer.xlsx_blob
+            b2 = live.xlsx_blob          # asked twice, as add_chart then replace_data would
+            x2 = live.xml_bytes(ct)
+        st = {"parts": 1, "date1904": False, "xml": read_chart_xml(etree.fromstring(x1)), "sheet": read_xlsx(b1)}
+        st["repeat_same"] = (read_xlsx(b2) == st["sheet"]) and x1 == x2
+        return st
+
+    try:
+        states.append(observe())
+        for ms in case["muts"]:
+            for m in ms:
+                apply_mut_obj(live, kind, m)
+            states.append(observe())
+    except Exception as e:  # noqa
+        states.append("err:" + exc_name(e))
+    return states
 
 
 # ------------------------------------------------------------------ the oracle (independent of the model)
@@ -899,6 +1030,23 @@ def gen_cases(tier, rng):
         mk = (lambda: gen_cat(rng, nser=rng.randint(1, 5))) if kind == "cat" else (lambda: gen_xy(rng, kind, nser=rng.randint(1, 5)))
         ops = [["rep", mk()] for _ in range(rng.randint(1, 3))]
         cases.append({"op": "hist", "data": mk(), "ops": ops, "salt": i, "reopen": i % 5 == 0, "klass": "hist-" + kind})
+    # E1. ONE chart-data object used, extended in place (series, categories, points, number format), used again:
+    #     through a chart (add_chart then replace_data with the same object) and without one (xml_bytes / xlsx_blob twice)
+    for i in range(120 if quick else 1200):
+        kind = ["cat", "xy", "cat", "bub"][i % 4]
+        d0 = gen_cat(rng, nser=rng.randint(1, 3)) if kind == "cat" else gen_xy(rng, kind, nser=rng.randint(1, 3))
+        snaps, muts, cur = [], [], d0
+        for _ in range(rng.randint(1, 3)):
+            ms = []
+            for _m in range(rng.randint(1, 2)):
+                m = gen_mut(rng, cur)
+                cur = apply_mut_data(cur, m)
+                ms.append(m)
+            muts.append(ms)
+            snaps.append(cur)
+        cases.append({"op": "hist", "data": d0, "ops": [["rep", sn] for sn in snaps], "muts": muts,
+                      "mode": "blob" if i % 3 == 2 else "chart", "salt": i, "reopen": i % 6 == 0,
+                      "klass": "reuse-%s-%s" % ("blob" if i % 3 == 2 else "chart", kind)})
     # E2. replace_data on the charts of the PowerPoint-authored decks under /repo
     cc = corpus_charts()
     for i, (f, si, hi, kind, d19) in enumerate(cc if not quick else cc[::3]):
@@ -1156,7 +1304,11 @@ def _run(ck, tier, rng, tmp=None):
                 if msts is not None and mst is None:
                     d = d or "history step %d model=%s impl=ok" % (i, msts[i] if i < len(msts) else "-")
                 c1, d1 = check_state(ck, case, "step %d" % i, datas[i], flags[i], mst, ist, stats,
-                                     first_only=(i == 0 and is_pie(case["data"], case.get("salt", 0))))
+                                     first_only=(i == 0 and case.get("mode") != "blob" and is_pie(case["data"], case.get("salt", 0))))
+                if ist.get("repeat_same") is False:
+                    c1 = True
+                    ck.violation("repeated-blob-differs", "xml_bytes / xlsx_blob asked twice of the same unchanged chart data gave different results (step %d)" % i,
+                                 {"entry_point": "chart_data.xml_bytes / chart_data.xlsx_blob", "input": case})
                 concrete = concrete or c1
                 d = d or d1
                 if mst is not None and (mst["parts"] != ist["parts"] or mst["date1904"] != ist["date1904"]):
@@ -1194,7 +1346,7 @@ def _run(ck, tier, rng, tmp=None):
              "input": case, "diff": d}, concrete=False)
     ck.broken_build(oracle_found_concrete=any(v["concrete"] for v in ck.violations))
     return ck.finish(
-        rule="_column_reference on every n in 1..16384 and 10 values outside; category chart data with series counts crossing Z/AA, ZZ/AAA (24..27, 52, 53, 700, 703%s) x category depth 1..4 (ragged branching, string/number/date labels, None labels and values, unequal series lengths); XY and bubble data with 0..6 (and 40..%d) series of unequal lengths; new chart + 1..3 replace_data with differently shaped data through a real presentation (every 5th saved and re-opened); replace_data on the charts of the decks under /repo (%s); edge classes (empty series, 17-digit numbers, formula/url-like/over-long strings, datetime labels, date1904 charts, depth 26/27) and a malformed stream (non-uniform depth, no categories, mixed label types). non-trivial = n in 1..16384 for column references; otherwise the (last) data has >= 2 series and >= 2 points, or >= 2 category levels and a point" % (
+        rule="_column_reference on every n in 1..16384 and 10 values outside; category chart data with series counts crossing Z/AA, ZZ/AAA (24..27, 52, 53, 700, 703%s) x category depth 1..4 (ragged branching, string/number/date labels, None labels and values, unequal series lengths); XY and bubble data with 0..6 (and 40..%d) series of unequal lengths; new chart + 1..3 replace_data with differently shaped data through a real presentation (every 5th saved and re-opened); one chart-data object reused and extended in place (add_series, add_category, more points, categories reassigned, number format) between add_chart / replace_data calls and between repeated xml_bytes / xlsx_blob calls; replace_data on the charts of the decks under /repo (%s); edge classes (empty series, 17-digit numbers, formula/url-like/over-long strings, datetime labels, date1904 charts, depth 26/27) and a malformed stream (non-uniform depth, no categories, mixed label types). non-trivial = n in 1..16384 for column references; otherwise the (last) data has >= 2 series and >= 2 points, or >= 2 category levels and a point" % (
             "" if tier == "quick" else ", 1400", 120 if tier == "quick" else 1000, "every 3rd of the %d with at least one series" % len(corpus_charts()) if tier == "quick" else "all %d with at least one series" % len(corpus_charts())),
         trusted_base=TB, assumptions=ASSUME,
         extra={"correspondence_diffs": stats["diffs"], "diffs_attributed_to_oracle_failures": stats["attributed_diffs"],
